@@ -125,10 +125,11 @@ def sys_paths(s):
     return _q.findall(s.text)
 
 
-def dir_mutations(calls, d):
+def dir_mutations(calls, d, reads=False):
     """calls that change (or were meant to change) something directly inside directory d.
     -> list of dict(op, paths, res, s) in log order.  res: ok | fail (injected error) | kill
-    (injected kill: did not happen) | noop (failed on its own, e.g. ENOENT)."""
+    (injected kill: did not happen) | noop (failed on its own, e.g. ENOENT).
+    reads=True also lists read-only opens (op "open")."""
     pre = d.rstrip("/") + "/"
     res = []
     for s in calls:
@@ -142,6 +143,8 @@ def dir_mutations(calls, d):
                 op = "create"
             elif "O_WRONLY" in flags or "O_RDWR" in flags or "O_TRUNC" in flags:
                 op = "openw"
+            elif reads:
+                op = "open"
             else:
                 continue
         elif s.name == "write":
@@ -169,6 +172,7 @@ def dir_mutations(calls, d):
 def run_traced(binp, env, log, inject=None, timeout=180, cwd=None, stdin=None):
     """run binp under strace.  -> (exit code of the tracee or -9 when killed, stdout)"""
     e = dict(os.environ)
+    e.update(CHILD_ENV)
     e.update({k: str(v) for k, v in env.items()})
     try:
         r = subprocess.run(strace_cmd(log, inject) + [binp], env=e, stdout=subprocess.PIPE, stderr=subprocess.DEVNULL,
@@ -183,6 +187,7 @@ def run_traced(binp, env, log, inject=None, timeout=180, cwd=None, stdin=None):
 
 def run_plain(binp, env, timeout=180, cwd=None):
     e = dict(os.environ)
+    e.update(CHILD_ENV)
     e.update({k: str(v) for k, v in env.items()})
     try:
         r = subprocess.run([binp], env=e, stdout=subprocess.PIPE, stderr=subprocess.PIPE, timeout=timeout, cwd=cwd)
@@ -193,6 +198,38 @@ def run_plain(binp, env, timeout=180, cwd=None):
 
 def main_tid(calls):
     return calls[0].tid if calls else 0
+
+
+CHILD_ENV = {"GOMAXPROCS": "2"}   # fewer runtime threads for strace to follow
+
+
+def load_views(pool, binp, env_for, tag, dirs, chunk=8):
+    """load every directory in dirs with the driver's `load` role in fresh processes (several
+    directories per process, one searcher each).  -> {dir: projection}.  A loader process that
+    dies is retried per directory; a directory that kills the loader is reported as such."""
+    pat = re.compile(r"^%s (.*)$" % tag, re.M)
+
+    def go(ds):
+        rc, out, err = run_plain(binp, env_for(ds))
+        got = {}
+        for m in pat.finditer(out):
+            v = json.loads(m.group(1))
+            got[v["dir"]] = v
+        if rc == 0 and all(d in got for d in ds):
+            return got
+        if len(ds) == 1:
+            return {ds[0]: {"dir": ds[0], "view": [], "bad": ["loader rc=%d: %s" % (rc, err[-400:])], "crashes": 1,
+                            "files": sorted(os.listdir(ds[0])), "loader_died": True}}
+        res = {}
+        for d in ds:
+            res.update(go([d]))
+        return res
+
+    chunks = [dirs[i:i + chunk] for i in range(0, len(dirs), chunk)]
+    res = {}
+    for got in pool.map(go, chunks):
+        res.update(got)
+    return res
 
 
 # ----------------------------------------------------------------------------- C12 proper
@@ -248,14 +285,8 @@ class Runner:
             raise vk.Inconclusive("preparing the old index failed (rc=%d): %s" % (rc, err[-2000:]))
         return d
 
-    def load(self, cfg, d):
-        rc, out, err = run_plain(self.binp, self.cfg_env(cfg, d, "load"))
-        m = re.search(r"^C12VIEW (.*)$", out, re.M)
-        if rc != 0 or not m:
-            # the loader process itself died: that is an observation about the real searcher
-            return {"view": [], "bad": ["loader rc=%d: %s" % (rc, err[-500:])], "crashes": 1, "files": sorted(os.listdir(d)),
-                    "nfiles": 0, "loader_died": True}
-        return json.loads(m.group(1))
+    def load_env(self, dirs):
+        return {"VERIF_C12_ROLE": "load", "VERIF_C12_CFG": json.dumps({"dirs": dirs})}
 
     def one(self, cfg, name, tmpl, tag, inject=None):
         """copy the old index, run the operation under strace, load the result."""
@@ -266,11 +297,8 @@ class Runner:
         rc, out = run_traced(self.binp, self.cfg_env(cfg, d, "build"), log, inject)
         calls, ends = parse_strace(log)
         muts = dir_mutations(calls, d)
-        view = self.load(cfg, d)
         files = sorted(abstract_name(f) for f in os.listdir(d))
-        if not self.ctx.keep:
-            shutil.rmtree(d, ignore_errors=True)
-        return {"rc": rc, "calls": calls, "muts": muts, "view": view, "files": files, "log": log, "tid": main_tid(calls)}
+        return {"rc": rc, "muts": muts, "view": None, "files": files, "log": log, "tid": main_tid(calls), "dir": d}
 
 
 def abstract_name(fn):
@@ -303,11 +331,12 @@ def run(ctx):
     want = {'"%s"' % x for x in SHAPES}
     if reached != want:
         raise vk.Inconclusive("shapes reachable in Finish.tla: %s, expected %s" % (sorted(reached), sorted(want)))
-    r2 = ctx.tlc("Finish", "Finish_strict.cfg", count=False, defines={
-        "ModeSet": allmodes, "MaxK": 2, "MaxM": 2, "MaxFail": 1})
-    if r2.ok or r2.invariant not in ("CrashAtomicStrict", "SuccessMeansInstalledStrict"):
-        raise vk.Inconclusive("the strict property was expected to fail on the model of the design: %s" % r2.log)
-    ctx.notes.append("model: strict CrashAtomic/SuccessMeansInstalled fail on the design; all 8 named shapes reachable")
+    if ctx.thorough:
+        r2 = ctx.tlc("Finish", "Finish_strict.cfg", count=False, defines={
+            "ModeSet": allmodes, "MaxK": 2, "MaxM": 2, "MaxFail": 1})
+        if r2.ok or r2.invariant not in ("CrashAtomicStrict", "SuccessMeansInstalledStrict"):
+            raise vk.Inconclusive("the strict property was expected to fail on the model of the design: %s" % r2.log)
+    ctx.notes.append("model: all 8 named non-atomic shapes are reachable (so the strict property fails on the design), no other shape is")
 
     # ---------------------------------------------------------------- V
     binp = ctx.go_build_test(PKG, FILES)
@@ -346,7 +375,10 @@ def run(ctx):
         for rep in range(reps):
             for j, mu in enumerate(rm):
                 s = mu["s"]
-                jobs.append((cfg, n, "kill", j, mu, "%s:error=EIO:signal=SIGKILL:when=%d" % (s.name, s.ordinal), rep))
+                # quick tier: a kill at the fchmod of a temp file leaves the same directory as a kill at
+                # its first write (an empty temp file), so only the latter is run
+                if ctx.thorough or mu["op"] != "chmod":
+                    jobs.append((cfg, n, "kill", j, mu, "%s:error=EIO:signal=SIGKILL:when=%d" % (s.name, s.ordinal), rep))
                 if mu["op"] in ("rename", "unlink"):
                     jobs.append((cfg, n, "fault", j, mu, "%s:error=EIO:when=%d" % (s.name, s.ordinal), rep))
     ctx.log("configurations: %d, supervised runs: %d" % (len(cfgs), len(jobs)))
@@ -382,13 +414,23 @@ def run(ctx):
         trace.append(end_event({"ref": "done", "kill": "crash", "fault": "fault"}[kind], r["rc"], r["view"]))
         scen.append({"cfg": cfg, "run": kind, "point": point, "start": start + 1, "end": len(trace), "r": r})
 
-    for cfg in cfgs:
-        emit(cfg, "ref", 0, refs[cname(cfg)])
+    done = []
     for job, r, why in pool.map(supervised, jobs):
         cfg, n, kind, j, mu, inject, rep = job
         if r is None:
             inconclusive.append("%s %s@%d (%s): %s" % (n, kind, j, inject, why))
             continue
+        done.append((cfg, kind, j, r))
+    ctx.log("supervised runs done, loading %d surviving directories" % (len(done) + len(cfgs)))
+    allr = [refs[cname(c)] for c in cfgs] + [x[3] for x in done]
+    views = load_views(pool, binp, rn.load_env, "C12VIEW", [r["dir"] for r in allr])
+    for r in allr:
+        r["view"] = views[r["dir"]]
+        if not ctx.keep:
+            shutil.rmtree(r["dir"], ignore_errors=True)
+    for cfg in cfgs:
+        emit(cfg, "ref", 0, refs[cname(cfg)])
+    for cfg, kind, j, r in done:
         emit(cfg, kind, j, r)
     pool.shutdown()
     if len(inconclusive) > max(2, len(jobs) // 20):
